@@ -154,6 +154,55 @@ class Gen:
         r.shuffle(out)
         return out
 
+    def optjoin(self):
+        """three joined groups; the first leaves a variable it shares with the third unbound in some solutions
+        (OPTIONAL not matched, or bound in one UNION branch only): a chain of joins is evaluated non-lazily"""
+        r = self.rng
+        s_, x, v = r.sample(self.vars, 3)
+        p1, p2, p3, p4 = (r.choice(self.preds) for _ in range(4))
+        if r.random() < 0.6:
+            first = {"k": "group", "els": [{"k": "bgp", "ts": [[s_, p1, x]]},
+                                          {"k": "optional", "g": {"k": "group", "els": [{"k": "bgp", "ts": [[s_, p2, v]]}]}}]}
+        else:
+            first = {"k": "group", "els": [{"k": "union", "gs": [
+                {"k": "group", "els": [{"k": "bgp", "ts": [[s_, p1, x]]}]},
+                {"k": "group", "els": [{"k": "bgp", "ts": [[s_, p2, v]]}]}]}]}
+        out = [{"k": "grp", "g": first},
+               {"k": "grp", "g": {"k": "group", "els": [{"k": "bgp", "ts": [[s_, p3, r.choice([x, self.var()])]]}]}},
+               {"k": "grp", "g": {"k": "group", "els": [{"k": "bgp", "ts": [[r.choice([s_, self.var()]), p4, v]]}]}}]
+        r.shuffle(out)
+        return out
+
+    def zero_path(self):
+        r = self.rng
+        p1, p2 = r.choice(self.preds), r.choice(self.preds)
+        return r.choice([["*", p1], ["?", p1], ["*", ["|", p1, p2]], ["^", ["*", p1]], ["*", p1]])
+
+    def litpath(self):
+        """a variable that takes a literal value (object of a plain pattern, VALUES, BIND) reaching the SUBJECT of a
+        zero-length-capable path pattern; binder and path pattern are separate joined groups (both operand orders)"""
+        r = self.rng
+        lits = [t for t in self.objs if t in LITS]
+        if not lits:
+            return []
+        x, y = r.sample(self.vars, 2)
+        kind = r.choice(["tp", "tp", "values", "bind"])
+        routed = {"k": "grp", "g": {"k": "group", "els": [{"k": "bgp", "ts": [[x, self.zero_path(), y]]}]}}
+        if kind == "tp":
+            binder = {"k": "grp", "g": {"k": "group", "els": [{"k": "bgp", "ts": [[r.choice([v for v in self.vars if v != x]),
+                                                                                    r.choice(self.preds), x]]}]}}
+        elif kind == "values":
+            binder = {"k": "values", "vs": [x], "rows": [[t] for t in r.sample(lits + self.subs, min(2, len(lits + self.subs)))]
+                      + [[r.choice(lits)]]}
+        else:
+            self.fresh += 1
+            x = "?b%d" % self.fresh
+            routed["g"]["els"][0]["ts"][0][0] = x
+            return [{"k": "bind", "e": r.choice(lits), "v": x}, routed]
+        out = [binder, routed]
+        r.shuffle(out)
+        return out
+
     def disjoint(self, kind):
         """MINUS / OPTIONAL / FILTER NOT EXISTS over variables that occur nowhere else in the query"""
         self.fresh += 1
@@ -229,11 +278,12 @@ class Gen:
         if not els and n_extra == 0:
             n_extra = 1
         kinds = [("bgp", 2), ("grp", 3), ("union", 3), ("optional", 3), ("minus", 2), ("filter", 4), ("bind", 2),
-                 ("values", 2), ("sub", 3), ("graph", 3 if self.ds else 0), ("multiroute", 1 if self.ok("path") else 0)]
+                 ("values", 2), ("sub", 3), ("graph", 3 if self.ds else 0), ("multiroute", 3 if self.ok("path") else 0),
+                 ("litpath", 1 if self.ok("path") else 0), ("optjoin", 2 if len(self.vars) >= 3 else 0)]
         kinds = [(k, w) for k, w in kinds if w and self.ok(k)]
         for _ in range(n_extra):
             k = r.choices([k for k, _ in kinds], [w for _, w in kinds])[0]
-            if depth <= 0 and k in ("grp", "union", "optional", "minus", "sub", "graph", "multiroute"):
+            if depth <= 0 and k in ("grp", "union", "optional", "minus", "sub", "graph", "multiroute", "litpath", "optjoin"):
                 k = "filter" if self.ok("filter") else "bgp"
             if k == "bgp":
                 els.append(self.bgp(1, 2))
@@ -250,6 +300,10 @@ class Gen:
                     els.append({"k": "minus", "g": self.group(depth - 1, True)})
             elif k == "multiroute":
                 els += self.multiroute()
+            elif k == "litpath":
+                els += self.litpath()
+            elif k == "optjoin":
+                els += self.optjoin()
             elif k == "filter":
                 els.append({"k": "filter", "e": self.expr()})
             elif k == "bind":
@@ -415,6 +469,8 @@ def materialize(case):
             break
         try:
             r = evaluate(build(out["data"], "mem", out.get("ds", False)), out["q"])
+        except core.CaseTimeout:
+            raise
         except Exception:  # noqa: BLE001
             break
         if r[0] == "ok" and r[2]:
@@ -490,12 +546,34 @@ def _gen_case(rng, tier, i, stream):
             kind = rng.choice(["minus", "minus", "optional", "notexists"])
             els.insert(npat if kind != "notexists" else len(els), g.disjoint(kind))
         cand = sorted(outer_bgp_vars(q) - subselect_vars(q))
-        if cand:
+        lit_objs = sorted({t[2] for t in data if t[2] in LITS})
+        first_bgp = next((e for e in q["where"]["els"] if e["k"] == "bgp"), None)
+        if lit_objs and first_bgp is not None and first_bgp is q["where"]["els"][0] and rng.random() < 0.25:
+            # the outermost BGP binds ?lx to objects (literals among them); a zero-length path starts at ?lx;
+            # the initBindings value is a literal that IS a node of the graph
+            lit = rng.choice(lit_objs)
+            pred = rng.choice([t[1] for t in data if t[2] == lit])
+            first_bgp["ts"].append([g.var(), pred, "?lx"])
+            els = q["where"]["els"]
+            npat = len([e for e in els if e["k"] != "filter"])
+            els.insert(rng.randint(1, npat), {"k": "grp", "g": {"k": "group", "els": [
+                {"k": "bgp", "ts": [["?lx", g.zero_path(), g.var()]]}]}})
+            if q["proj"] is not None and not q["count"]:
+                q["proj"] = q["proj"] + ["?lx"]
+            case["init"] = ["?lx", lit]
+        elif cand:
             subs, preds, objs = data_terms(data)
             # VALUES cannot hold a blank node
             case["init"] = [rng.choice(cand), rng.choice([x for x in subs + preds + objs if x != "_n"] or ["a"])]
     elif stream == "prepared":
         case["data2"] = gen_data(rng, ds)
+        if rng.random() < 0.5:      # a value that depends on the base in force: IRI("rel")
+            g.fresh += 1
+            bv = "?b%d" % g.fresh
+            els = q["where"]["els"]
+            els.insert(len([e for e in els if e["k"] != "filter"]), {"k": "bind", "e": ["iri", rng.choice(["d1", "x/y", "#f"])], "v": bv})
+            if q["proj"] is not None and not q["count"]:
+                q["proj"] = q["proj"] + [bv]
         if not has_kind(q, {"minus", "optional", "sub", "exists", "notexists"}) or rng.random() < 0.25:
             els = q["where"]["els"]
             npat = len([e for e in els if e["k"] != "filter"])
@@ -621,6 +699,8 @@ def expr_text(sp, e):
         return "sameTerm(%s, %s)" % (expr_text(sp, e[1]), expr_text(sp, e[2]))
     if k == "str":
         return "str(%s)" % expr_text(sp, e[1])
+    if k == "iri":      # a relative reference, resolved against the base in force
+        return '%s("%s")' % ("IRI" if len(e[1]) % 2 == 0 else "URI", e[1])
     if k == "coalesce":
         return "coalesce(%s, %s)" % (expr_text(sp, e[1]), expr_text(sp, e[2]))
     if k == "exists":
@@ -986,6 +1066,8 @@ def evaluate(g, q, mode="e", seed=0, colmap=None, init=None, prepared=None, text
         else:
             res = g.query(query_text(q, mode, seed), **kw)
         return canon(res, colmap, is_ordered(q))
+    except core.CaseTimeout:
+        raise
     except Exception as e:  # noqa: BLE001
         return ("err", _exc_name(e))
 
@@ -1099,6 +1181,8 @@ def run_impl(case):
         fresh = {"A": ref, "B": evaluate(gB, q)}
         try:
             p = prepareQuery(text)
+        except core.CaseTimeout:
+            raise
         except Exception as e:  # noqa: BLE001
             p = None
             if ref[0] != "err":
@@ -1112,6 +1196,8 @@ def run_impl(case):
                     it = iter(gA.query(p))
                     next(it, None)
                     case_keepalive = it  # noqa: F841
+                except core.CaseTimeout:
+                    raise
                 except Exception:  # noqa: BLE001
                     pass
             if sched == 2:
@@ -1142,6 +1228,8 @@ def run_impl(case):
                         if got != want:
                             viol.append("prepared: interleaved evaluation on %s gives %s, fresh gives %s"
                                         % (nm, _short(got), _short(want)))
+                except core.CaseTimeout:
+                    raise
                 except Exception as e:  # noqa: BLE001
                     if ref[0] == "ok" and fresh["B"][0] == "ok":
                         viol.append("prepared: interleaved evaluation raises %s" % _exc_name(e))
@@ -1156,6 +1244,8 @@ def run_impl(case):
                         pass
                 except _FlakyError:
                     stats["prep_midway_error"] = 1
+                except core.CaseTimeout:
+                    raise
                 except Exception:  # noqa: BLE001
                     stats["prep_midway_other_error"] = 1
             init = None
@@ -1164,6 +1254,29 @@ def run_impl(case):
                 subs, _preds, objs = data_terms(data)
                 init = {rng.choice(cand)[1:]: TERMS[rng.choice(subs + objs)]}   # a bnode value is fine here
                 stats["prep_with_init"] = 1
+            # the `base=` keyword varied between evaluations of the one prepared object; each answer against a
+            # freshly prepared copy evaluated with the same keyword
+            if has_kind(q, {"iri"}):
+                stats["prep_base_varied"] = 1
+                for k, b in enumerate(["http://a.example/", None, "http://b.example/dir/", "http://a.example/", None]):
+                    kw = {"base": b} if b else {}
+                    try:
+                        got = canon(gA.query(p, **kw), None, is_ordered(q))
+                    except core.CaseTimeout:
+                        raise
+                    except Exception as e:  # noqa: BLE001
+                        got = ("err", _exc_name(e))
+                    try:
+                        want = canon(gA.query(prepareQuery(text), **kw), None, is_ordered(q))
+                    except core.CaseTimeout:
+                        raise
+                    except Exception as e:  # noqa: BLE001
+                        want = ("err", _exc_name(e))
+                    compared += 1
+                    if got != want:
+                        viol.append("prepared-base: evaluation %d of the prepared query with base=%s gives %s, a freshly "
+                                    "prepared copy evaluated the same way gives %s" % (k + 1, b, _short(got), _short(want)))
+                        break
             for k, nm in enumerate(["A", "A", "A", "B", "A"]):
                 if init is not None and k == 1:
                     got = evaluate(gs[nm], q, prepared=p, init=init)
@@ -1219,6 +1332,8 @@ def run_impl(case):
                                             "another evaluation of it, gives %d rows %s; a fresh parse gives %d rows %s"
                                             % (what, len(got), list(got)[:3], len(w), list(w)[:3]))
                                 break
+                    except core.CaseTimeout:
+                        raise
                     except Exception as e:  # noqa: BLE001
                         a_ = evaluate(gA, q, init=iba)
                         b_ = evaluate(gA, q, init=ibb)
@@ -1342,6 +1457,8 @@ def run_impl(case):
                 try:
                     pq = prepareQuery(text, initNs={"ux": URIRef(NS)})
                     got, ns = evaluate(gB, q, prepared=pq), NS
+                except core.CaseTimeout:
+                    raise
                 except Exception as e:  # noqa: BLE001
                     got, ns = ("err", _exc_name(e)), NS
                 g = gB
@@ -1387,6 +1504,8 @@ def run_impl(case):
                     if way == "prepare+initNs":
                         return evaluate(gD, q, prepared=prepareQuery(text_d, initNs=other))
                     return evaluate(gD, q, text=text_d, initNs=other)
+                except core.CaseTimeout:
+                    raise
                 except Exception as e:  # noqa: BLE001
                     return ("err", _exc_name(e))
             ways = ["prepare", "prepare+initNs", "query+initNs"]
@@ -1697,13 +1816,17 @@ def _tags(result):
     return {v.split(":")[0] for v in result["viol"]}
 
 
+def _has_zero_mod(p_):
+    return isinstance(p_, list) and (p_[0] in ("*", "?") or any(_has_zero_mod(x) for x in p_[1:]))
+
+
 def _zero_path_end_vars(node):
     """variables at an end of a triple pattern whose predicate is `p*` or `p?`"""
     out = set()
     if isinstance(node, dict):
         if node.get("k") == "bgp":
             for s_, p_, o_ in node["ts"]:
-                if isinstance(p_, list) and p_[0] in ("*", "?"):
+                if isinstance(p_, list) and _has_zero_mod(p_):
                     out |= {x for x in (s_, o_) if is_var(x)}
         for v in node.values():
             out |= _zero_path_end_vars(v)
@@ -2021,7 +2144,31 @@ def _m_values_filter_pushed(case, result):
             and _values_scope_hazard(case["q"]["where"]))
 
 
-MATCHERS = {"values_filter_pushed": _m_values_filter_pushed, "optional_recheck": _m_optional_recheck, "values_var_masked": _m_values_var_masked, "init_nested_optional": _m_init_nested_optional, "graph_var_nongraph": _m_graph_var_nongraph,
+def _minus_values_vars(node, inside=False):
+    """variables bound by a VALUES block somewhere inside the right-hand side of a MINUS"""
+    out = set()
+    if isinstance(node, dict):
+        if inside and node.get("k") == "values":
+            out |= set(node["vs"])
+        for k, v in node.items():
+            out |= _minus_values_vars(v, inside or (node.get("k") == "minus" and k == "g"))
+    elif isinstance(node, list):
+        for v in node:
+            out |= _minus_values_vars(v, inside)
+    return out
+
+
+def _m_init_minus_values(case, result):
+    """C15-K9 (C04-K2 reached through the initBindings clause): the initBindings variable is bound by a VALUES
+    block inside the right-hand side of a MINUS: `_vars` of that side lacks it, so with an outer VALUES row MINUS
+    compares without it and removes a solution whose ?v disagrees; with initBindings the right-hand side is
+    evaluated in a context re-seeded with ?v and the disagreeing VALUES row never arises."""
+    case = materialize(case)
+    return (case["stream"] == "init" and _tags(result) == {"init"} and bool(case.get("init"))
+            and case["init"][0] in _minus_values_vars(case["q"]["where"]))
+
+
+MATCHERS = {"init_minus_values": _m_init_minus_values, "values_filter_pushed": _m_values_filter_pushed, "optional_recheck": _m_optional_recheck, "values_var_masked": _m_values_var_masked, "init_nested_optional": _m_init_nested_optional, "graph_var_nongraph": _m_graph_var_nongraph,
             "maybe_bound_filter": _m_maybe_bound_filter, "zero_path_nonnode": _m_zero_path_nonnode, "init_nested_expr": _m_init_nested_expr,
             # matchers of repaired defects (their witnesses must pass; kept for documentation)
             "fixed": lambda case, result: False}
